@@ -92,6 +92,45 @@ theorem relaunch_runs_iff_no_done {cfg : Cfg} {done : Bool} {failed : Option Nat
     simp [act, upd]
     simp_all
 
+/-- **a launch while the pid file of a dead process exists** (second sentence, for a directory left by a killed process): in any reachable
+    quiescent state — every runner process dead by whatever cause, so the pid file may still name one of them — a launch through the
+    scheduler protocol (job lock, spawn, pid file, release) overwrites the stale pid file under the lock with the new process, and once
+    that process has ended on its own no pid file is left, the lock is free, and its body ran exactly when no success marker existed
+    (source with the clean-up kept on the success path). -/
+theorem launch_over_stale_pid {cfg : Cfg} (hc : cfg.unregOnSuccess = false) {done : Bool} {failed : Option Nat} {s : St}
+    (h : Reach cfg done failed s) (hq : ∀ i, i < s.n → (s.procs i).dead ≠ none) (hlq : ∀ l, (s.ls l).holds = false)
+    (l : Nat) (hi : s.ls l = .idle) (b : Nat) :
+    let s4 := run cfg s [.lLock l, .lSpawn l .ok b, .lWrite l, .lRelease l]
+    s4.sh.pid = some s.n ∧ s4.sh.lock = none ∧
+    (s.sh.done = true →
+      let s' := runAlone cfg s.n 11 s4
+      s'.sh.pid = none ∧ s'.sh.starts = s.sh.starts ∧ s'.sh.done = true ∧ (s'.procs s.n).dead = some (.code 0) ∧ s'.sh.lock = none) ∧
+    (s.sh.done = false →
+      let s' := runAlone cfg s.n (b + 21) s4
+      s'.sh.pid = none ∧ s'.sh.starts = s.sh.starts + 1 ∧ s'.sh.done = true ∧ (s'.procs s.n).dead = some (.code 0) ∧ s'.sh.lock = none) := by
+  have hl := quiescent_lock_free h hq hlq
+  have h4 : run cfg s [.lLock l, .lSpawn l .ok b, .lWrite l, .lRelease l] =
+      { sh := { s.sh with lock := none, pid := some s.n }, procs := upd s.procs s.n (newProc .ok b), n := s.n + 1,
+        ls := upd (upd (upd (upd s.ls l .locked) l (.spawned s.n)) l (.wrote s.n)) l .gone } := by
+    simp [run, act, hi, hl, upd, release]
+  intro s4
+  have hs4 : s4 = _ := h4
+  refine ⟨by rw [hs4], by rw [hs4], ?_, ?_⟩
+  · intro hd
+    have := solo_done cfg s.n { s.sh with lock := none, pid := some s.n } .ok b rfl hd
+    intro s'
+    have hs' : s' = runAlone cfg s.n 11 s4 := rfl
+    rw [hs', hs4, runAlone_eq cfg s.n 11 _ (by simp)]
+    simp [upd]
+    simp_all
+  · intro hd
+    have := solo_run_ok cfg s.n { s.sh with lock := none, pid := some s.n } b rfl hd
+    intro s'
+    have hs' : s' = runAlone cfg s.n (b + 21) s4 := rfl
+    rw [hs', hs4, runAlone_eq cfg s.n (b + 21) _ (by simp)]
+    simp [upd]
+    simp_all
+
 /-- **at most one success**: at most one process ever writes the success marker, and none does when
     the directory already had one (used by C05 and C11). -/
 theorem at_most_one_success {cfg : Cfg} {done : Bool} {failed : Option Nat} {s : St}
@@ -281,5 +320,11 @@ example : let s := run current (St.init false none) killedTrace
 /-- a success marker that was written (hypothesis of `done_implies_completed`) -/
 example : let s := run current (St.init false none) ([.spawn .ok 0] ++ List.replicate 20 (.step 0))
     s.sh.done = true ∧ (s.procs 0).touched = true ∧ (s.procs 0).completed = true := by decide
+
+/-- hypotheses of `launch_over_stale_pid` on a non-trivial state: the process launched by launcher 0 was SIGKILLed inside its body
+    (`killedTrace`: every runner dead, stale pid file `some 0`, no marker), launcher 1 is idle -/
+example : let s := run repaired (St.init false none) killedTrace
+    (∀ i, i < s.n → (s.procs i).dead ≠ none) ∧ s.sh.pid = some 0 ∧ s.ls 1 = .idle ∧ s.sh.done = false := by
+  refine ⟨by decide, by decide, by decide, by decide⟩
 
 end XpmVerif.C10
